@@ -20,6 +20,7 @@ open CifModel
 def OK : Code := 0
 def ERROR : Code := 2
 def ARGUMENT_ERROR : Code := 6
+def DUP_ITEMNAME : Code := 41
 def INVALID_ITEMNAME : Code := 42
 def NOSUCH_ITEM : Code := 43
 def INVALID_NUMBER : Code := 72
@@ -219,17 +220,17 @@ def tableKeys : V → Except Code (List Str)
 
 abbrev Packet := List Entry
 
-/-- `cif_packet_create(&p, names)` as written: every name is normalised first (any invalid one ↦
+/-- `cif_packet_create(&p, names)` on the pinned tree (before c571e89): every name is normalised first (any invalid one ↦
     CIF_INVALID_ITEMNAME), then one entry holding the unknown value is added per name **without looking for an
     existing entry of the same normalised name** (`HASH_ADD_KEYPTR` in `cif_packet_create_norm`).  The original
     spelling is attached afterwards by walking the entries in insertion order. -/
-def packetCreate (norm : Str → Option Str) : List Str → Except Code Packet
+def packetCreatePinned (norm : Str → Option Str) : List Str → Except Code Packet
   | [] => .ok []
   | n :: ns =>
     match norm n with
     | none => .error INVALID_ITEMNAME
     | some nk =>
-      match packetCreate norm ns with
+      match packetCreatePinned norm ns with
       | .error c => .error c
       | .ok p => .ok ((nk, n, .unk) :: p)
 
@@ -321,7 +322,7 @@ def targetWhileCloning (root : V) (sp dp : List Step) : V :=
     | _, _ => .unk
   else .unk
 
-/-- `cif_value_clone(src, &dst)` **as written** when `dst` is an existing object located at path `dp` of a root and
+/-- `cif_value_clone(src, &dst)` **on the pinned tree** (before f1b092b) when `dst` is an existing object located at path `dp` of a root and
     `src` is located at path `sp` of the same root: the C cleans `*dst` first and reads `src` afterwards.
       * `sp = dp` (the same object): the object has just been cleaned, so it is "cloned" from the unknown value;
       * `dp` a proper prefix of `sp` (`src` is a member of `dst`): `src` was released by the clean ↦ `none`
@@ -329,7 +330,7 @@ def targetWhileCloning (root : V) (sp dp : List Step) : V :=
       * `sp` a proper prefix of `dp` (`dst` is a member of `src`): the source is read while the target is in the state
         `targetWhileCloning`;
       * otherwise (`src` unrelated to `dst`): an ordinary copy. -/
-def cloneOnto (root : V) (sp dp : List Step) : Option V :=
+def cloneOntoPinned (root : V) (sp dp : List Step) : Option V :=
   match update root dp (targetWhileCloning root sp dp) with
   | none => none
   | some root' =>
@@ -337,25 +338,27 @@ def cloneOnto (root : V) (sp dp : List Step) : Option V :=
     | none => none
     | some s => update root' dp s
 
-/-- the repair proposed for F32 (notes/agents/gG-fixes.diff): `cif_value_clone` onto an existing object first builds
-    the copy in a scratch object, then cleans the target and moves the copy in; cloning an object onto itself does
-    nothing.  The source is therefore read before anything is released, wherever it lies relative to the target. -/
-def cloneOntoRepaired (root : V) (sp dp : List Step) : Option V :=
+/-- `cif_value_clone(src, &dst)` onto an existing object (after the repair f1b092b of F35): the copy is first built in a
+    scratch object, then the target is cleaned and the copy moved in; cloning an object onto itself does nothing.  The
+    source is therefore read before anything is released, wherever it lies relative to the target. -/
+def cloneOnto (root : V) (sp dp : List Step) : Option V :=
   if sp = dp then (match resolve root dp with | some _ => some root | none => none)
   else
     match resolve root sp with
     | none => none
     | some s => update root dp s
 
-/-- the repair proposed for F33: `cif_packet_create` refuses two names for one item (CIF_DUP_ITEMNAME = 41) -/
-def packetCreateRepaired (norm : Str → Option Str) : List Str → Except Code Packet
+/-- `cif_packet_create(&p, names)` (after the repair c571e89 of F36): every name is normalised first (any invalid one ↦
+    CIF_INVALID_ITEMNAME), then one entry holding the unknown value is added per name; two names for one item are refused
+    with CIF_DUP_ITEMNAME -/
+def packetCreate (norm : Str → Option Str) : List Str → Except Code Packet
   | [] => .ok []
   | n :: ns =>
     match norm n with
     | none => .error INVALID_ITEMNAME
     | some nk =>
-      match packetCreateRepaired norm ns with
+      match packetCreate norm ns with
       | .error c => .error c
-      | .ok p => if (mapFind p nk).isSome then .error 41 else .ok ((nk, n, .unk) :: p)
+      | .ok p => if (mapFind p nk).isSome then .error DUP_ITEMNAME else .ok ((nk, n, .unk) :: p)
 
 end CifModel.Model.Value
